@@ -863,7 +863,12 @@ class OmegaHOL:
             return self.handle_unsat_result(res.deriv)
         
         elif isinstance(res, ASM):
-            return proofterm.ProofTerm.assume(self.fact_hol[res.t])
+            pt = proofterm.ProofTerm.assume(self.fact_hol[res.t])
+            if res.t.is_false_factoid():
+                # An assumption 0 <= -k with k > 0 is itself contradictory
+                pt_less_zero = proofterm.ProofTerm('int_const_ineq', term.less(term.IntType)(pt.prop.arg, term.Int(0)))
+                return logic.apply_theorem('int_zero_less_eq_neg', pt_less_zero, pt)
+            return pt
         
         elif isinstance(res, RealCombine):
             i, l1, l2 = res.i, self.handle_unsat_result(res.deriv1), self.handle_unsat_result(res.deriv2)
